@@ -152,6 +152,16 @@ func (obj *Vector) AsList() List {
 	return obj.elements
 }
 
+// LoadForm returns a form that can be evaluated to create the object. All
+// the elements are included, also those beyond the fill-pointer.
+func (obj *Vector) LoadForm() Object {
+	form, _ := obj.Array.LoadForm().(List)
+	if 0 <= obj.FillPtr {
+		form = append(form, Symbol(":fill-pointer"), Fixnum(obj.FillPtr))
+	}
+	return form
+}
+
 // Adjust array with new parameters.
 func (obj *Vector) Adjust(
 	dims []int,
